@@ -182,6 +182,57 @@ def gen_graph(r, classes, labels, depth=4):
     return top
 
 
+class _Slow:
+    """Plain class (no remote awareness) whose __setstate__ gives other threads a chance to run in the middle of a load."""
+    def __init__(self, v):
+        self.v = v
+
+    def __setstate__(self, state):
+        import time
+        time.sleep(0.002)
+        self.__dict__.update(state)
+
+    def __eq__(self, other):
+        return type(other) is _Slow and other.v == self.v
+
+
+def concurrent_plain(chk, thorough):
+    """Several threads load plain graphs at the same time (the loads overlap: __setstate__ sleeps): every single call
+    must still equal what pickle gives."""
+    import sys
+    import threading
+    graphs = [[_Slow(i), {'k': [_Slow(i + 100), (1, 2)]}, _Slow(None)] for i in range(6)]
+    datas = [(rp.dumps(g), pickle.loads(pickle.dumps(g))) for g in graphs]
+    old = sys.getswitchinterval()
+    sys.setswitchinterval(1e-6)
+    bad = []
+    n_threads, n_loads = (8, 60) if thorough else (4, 25)
+
+    def work(k):
+        for j in range(n_loads):
+            data, ref = datas[(k + j) % len(datas)]
+            try:
+                out = rp.loads(data)
+                if out != ref:
+                    bad.append('value')
+            except BaseException as e:  # noqa
+                bad.append('exc:' + type(e).__name__)
+
+    try:
+        ts = [threading.Thread(target=work, args=(k,)) for k in range(n_threads)]
+        for t in ts:
+            t.start()
+        for t in ts:
+            t.join()
+    finally:
+        sys.setswitchinterval(old)
+    LOG.clear()
+    chk.case(('concurrent-plain-loads', n_threads, n_loads))
+    chk.count('concurrent_plain_loads', n_threads * n_loads)
+    if bad:
+        chk.violation('nondeclaring:concurrent-loads:%s' % bad[0], '%d of %d overlapping loads of plain graphs on %d threads differ from pickle (%s)' % (len(bad), n_threads * n_loads, n_threads, sorted(set(bad))), {'outcomes': sorted(set(bad))})
+
+
 def repeated_dumps(rp, *graphs):
     """Outcome of dumps over several attempts on the same class (a caller that catches the Warning and tries again, a
     second worker created with the same argument): the first attempt that is not rejected names the outcome."""
@@ -228,6 +279,7 @@ def run(tier):
                            '%s:%s->%s' % (tname if ref[0] != got[0] else 'value', ref[0], got[0]))
     chk.sample({'kind': 'stdlib menu', 'values': [repr(v)[:40] for v in std_menu()[22:40]]})
     late_copyreg(chk, differ)
+    concurrent_plain(chk, thorough)
 
     # ---- B. generated non-declaring hierarchies + graphs -----------------------
     n_h = 250 if thorough else 60
